@@ -8,13 +8,19 @@ import (
 
 // History draws a game with actions biased towards recurrences.
 func History(t *rapid.T, root refchess.Pos, maxSteps int) []string {
+	return HistoryOpt(t, root, maxSteps, true)
+}
+
+// HistoryOpt is History; with stopAt100 false the game goes on past a halfmove clock of 100
+// (as a GUI that does not adjudicate the fifty-move rule would let it).
+func HistoryOpt(t *rapid.T, root refchess.Pos, maxSteps int, stopAt100 bool) []string {
 	p := root
 	var moves []refchess.Move
 	var out []string
 	steps := draw(t, 0, maxSteps, "steps")
 	for len(out) < steps {
 		legal := p.Legal()
-		if len(legal) == 0 || p.Half >= 100 {
+		if len(legal) == 0 || (stopAt100 && p.Half >= 100) {
 			break
 		}
 		find := func(m refchess.Move) bool {
